@@ -18,3 +18,4 @@ def run(chk):
     core_rules.accessor_rules(chk, "C07")
     core_rules.security_setup_rules(chk, "C07")  # the outlay / bid-offer history columns start at zero on both setup paths
     core_rules.coupon_accrual(chk, "C07")  # the swept carry (coupon less holding cost) that enters the parent's cash is a well-defined amount on every side of the position
+    core_rules.refresh_before_trade(chk, "C07")  # the pending outlay of an earlier trade is recorded (and reset) by the refresh that precedes the next trade of the date
